@@ -1,27 +1,31 @@
-"""U13: `calculate_named_arg_order` (abra_core/src/statics/resolve.rs), sliced verbatim, with its
-argument types reduced by TYPE SUBSTITUTION only; Kani, bounded (arity <= 3, <= 4 call arguments).
+"""U13: `calculate_named_arg_order` (abra_core/src/statics/resolve.rs), sliced verbatim, compiled
+against the REAL utils crate (IdSet, HashMap) with its argument types reduced by type substitution
+only, and executed on EVERY input of a bounded domain (arity <= 3, <= 4 call arguments).
+
+Back end: exhaustive native enumeration.  Kani was tried first (as DESIGN.md plans): with String
+names and Rc payloads CBMC reached 17 GB; with u8 names, an inline Rc and one concrete
+(arity, length) pair per call it still ran out of 6 GB (the function's
+`iter().flatten().cloned().collect()` and Vec allocation dominate).  The bounded domain has 11,715
+inputs, so it is executed completely instead; panics are caught with catch_unwind.
 
 Sliced verbatim on every run:
   resolve.rs  : fn calculate_named_arg_order
   statics.rs  : struct FuncArgDetails minus the fields the function does not read
   ast.rs      : struct FuncCallArg; struct Identifier minus loc/id
-  id_set.rs   : IdSet::get_id (the `try_get_id(value).unwrap()` that panics)
+  utils       : the real crate, as a path dependency (IdSet<String>, hash::HashMap, get_id)
 Type substitutions / stubs:
   T1 FuncArgDetails: fields `symbol_table`, `required_args` dropped (not read by the function).
-  T2 IdSet<String> -> association-list stand-in (Vec<T>, first-insertion order = id) with
-     new/insert/try_get_id/len and the REAL get_id body; replaces utils::IdSet (hashbrown map +
-     raw pointers, proved separately in U15).
-  T3 HashMap<usize, Rc<Expr>> -> association-list stand-in with insert/len/default and
-     `for (k, v) in &map`; iteration order forward or reversed (symbolic) instead of hash order.
-  T4 Expr -> opaque `struct Expr { id: u32 }` behind the real Rc.
-  T5 Identifier: fields `loc`, `id` dropped (only `.v` is read).
+  T4 Expr -> opaque `struct Expr { id: u32 }` behind the real std::rc::Rc.
+  T5 Identifier: fields `loc`, `id` dropped (only `.v` is read); Hash derived.
 """
+import json
 import os
 import re
+import subprocess
+import time
 import slicer as S
 import engine as E
 import abra_cli
-from . import kmulti
 
 HERE = os.path.dirname(os.path.abspath(__file__))
 UNIT = "U13-named-args"
@@ -30,97 +34,15 @@ ST = 'abra_core/src/statics.rs'
 A = 'abra_core/src/ast.rs'
 IDS = 'utils/src/id_set.rs'
 
-PRELUDE = """#![allow(dead_code, unused_imports, unused_variables, unused_mut, clippy::all)]
-use std::hash::Hash;
+PRELUDE = """#![allow(dead_code, unused_imports, unused_variables, unused_mut, private_interfaces, clippy::all)]
 use std::rc::Rc;
+use utils::hash::HashMap; // the real utils crate (path dependency)
+use utils::id_set::IdSet;
 
 // ---- T4: opaque expression ----
 #[derive(Debug, Clone, PartialOrd, Ord, PartialEq, Eq, Hash)]
 pub(crate) struct Expr {
     pub(crate) id: u32,
-}
-
-// ---- T3: association-list stand-in for utils::hash::HashMap ----
-#[derive(Clone)]
-pub struct HashMap<K, V> {
-    items: Vec<(K, V)>,
-    pub rev: bool,
-}
-impl<K, V> Default for HashMap<K, V> {
-    fn default() -> Self {
-        HashMap { items: Vec::new(), rev: false }
-    }
-}
-impl<K: PartialEq, V> HashMap<K, V> {
-    pub fn insert(&mut self, k: K, v: V) -> Option<V> {
-        let mut i = 0;
-        while i < self.items.len() {
-            if self.items[i].0 == k {
-                return Some(std::mem::replace(&mut self.items[i].1, v));
-            }
-            i += 1;
-        }
-        self.items.push((k, v));
-        None
-    }
-    pub fn len(&self) -> usize {
-        self.items.len()
-    }
-}
-pub struct HashMapIter<'a, K, V> {
-    m: &'a HashMap<K, V>,
-    next: usize,
-}
-impl<'a, K, V> Iterator for HashMapIter<'a, K, V> {
-    type Item = (&'a K, &'a V);
-    fn next(&mut self) -> Option<Self::Item> {
-        if self.next >= self.m.items.len() {
-            return None;
-        }
-        let i = if self.m.rev { self.m.items.len() - 1 - self.next } else { self.next };
-        self.next += 1;
-        let (k, v) = &self.m.items[i];
-        Some((k, v))
-    }
-}
-impl<'a, K, V> IntoIterator for &'a HashMap<K, V> {
-    type Item = (&'a K, &'a V);
-    type IntoIter = HashMapIter<'a, K, V>;
-    fn into_iter(self) -> Self::IntoIter {
-        HashMapIter { m: self, next: 0 }
-    }
-}
-
-// ---- T2: association-list stand-in for utils::id_set::IdSet (ids = first-insertion order) ----
-#[derive(Clone)]
-pub struct IdSet<T: Hash + Eq> {
-    items: Vec<T>,
-}
-impl<T: Hash + Eq> IdSet<T> {
-    pub fn new() -> Self {
-        IdSet { items: Vec::new() }
-    }
-    pub fn insert(&mut self, value: T) -> u32 {
-        if let Some(id) = self.try_get_id(&value) {
-            return id;
-        }
-        self.items.push(value);
-        (self.items.len() - 1) as u32
-    }
-    pub fn try_get_id(&self, value: &T) -> Option<u32> {
-        let mut i = 0;
-        while i < self.items.len() {
-            if &self.items[i] == value {
-                return Some(i as u32);
-            }
-            i += 1;
-        }
-        None
-    }
-    pub fn len(&self) -> usize {
-        self.items.len()
-    }
-/*@GET_ID@*/
 }
 """
 
@@ -129,46 +51,26 @@ name = "u13"
 version = "0.1.0"
 edition = "2024"
 [dependencies]
+utils = { path = "%s" }
 [lints.rust]
 unexpected_cfgs = { level = "allow" }
 [workspace]
 """
 
-MAIN = """#[cfg(not(kani))]
-fn main() {
-    // replay helper: u13 <np> <d0> <d1> <d2> <rev> <nc> <c0> <c1> <c2> <c3>  -> runs the sliced function natively
-    use u13::u13::*;
-    let a: Vec<u64> = std::env::args().skip(1).map(|x| x.parse().unwrap()).collect();
-    let s = Shape { np: a[0] as usize, has_default: [a[1] != 0, a[2] != 0, a[3] != 0], rev: a[4] != 0, nc: a[5] as usize,
-                    choice: [a[6] as u8, a[7] as u8, a[8] as u8, a[9] as u8] };
-    let r = u13::replay_run(&s);
-    println!("result ids: {:?}  expected: {:?}", r, expected(&s));
-}
-#[cfg(kani)]
-fn main() {}
-"""
-
-REPLAY_FN = """
-#[cfg(not(kani))]
-pub fn replay_run(s: &u13::Shape) -> Vec<u32> {
-    let d = u13::details(s);
-    let args = u13::call_args(s);
-    calculate_named_arg_order(&d, &args).iter().map(|e| e.id).collect()
-}
-"""
+MAIN = "fn main() {\n    u13::u13::enumerate_main();\n}\n"
 
 OBL = [
-    ("C18.resolve.named_arg_order.post", ["C18"], "named_arg_order_post",
+    ("C18.resolve.named_arg_order.post", ["C18"], "nmismatch", "mismatches",
      "for every parameter list of arity <= 3 (any subset with defaults) and every call of <= 4 arguments that is well-formed "
      "(no unknown name, no duplicate, no missing required argument, no positional after named, not more positional arguments "
      "than parameters): calculate_named_arg_order returns a vector of length nargs whose slot i holds positional argument i, "
      "else the argument named param_i, else default_i"),
-    ("C04.resolve.named_arg_order.total", ["C04", "C18"], "named_arg_order_total",
-     "for every parameter list of arity <= 3 and EVERY call of <= 4 arguments (named with a parameter name, with an unknown name, "
-     "or positional, in any order): calculate_named_arg_order returns (no panic) and returns at most nargs slots"),
+    ("C04.resolve.named_arg_order.total", ["C04", "C18"], "npanic", "panics",
+     "for every parameter list of arity <= 3 and EVERY call of <= 4 arguments (each positional, named with a parameter name or "
+     "named with an unknown name, in any order): calculate_named_arg_order returns (no panic) and returns at most nargs slots"),
 ]
-BOUND = ("arity <= 3, <= 4 call arguments, names drawn from {a, b, c, zz}; default_args iterated forward or reversed "
-         "(2 of the possible hash orders); Kani unwind 7")
+BOUND = ("arity <= 3 with every subset of defaults, <= 4 call arguments, each positional or named with one of a, b, c, zz: "
+         "%d inputs, all executed on the compiled slice (exhaustive native execution, not symbolic)")
 
 
 def build():
@@ -184,7 +86,6 @@ def build():
     for f in ('symbol_table', 'required_args'):
         if re.search(r'\b%s\b' % f, fn):
             raise S.SliceError("calculate_named_arg_order reads dropped field %s" % f)
-    fad2 = re.sub(r'^(\s+)(arg_indices|default_args|nargs):', r'\1pub(crate) \2:', fad2, flags=re.M)
     fca = S.item(A, r'pub struct FuncCallArg \{')
     sl['FuncCallArg'] = fca
     ident = S.item(A, r'pub\(crate\) struct Identifier \{')
@@ -196,8 +97,6 @@ def build():
         raise S.SliceError("Identifier derive line changed")
     get_id = S.method(IDS, r'impl<T: Hash \+ Eq> IdSet<T> \{', 'get_id')
     sl['IdSet::get_id'] = get_id
-    if not re.search(r'self\.try_get_id\(value\)', get_id):
-        raise S.SliceError("IdSet::get_id no longer delegates to try_get_id")
     # the harness builds FuncArgDetails the way update_function_arg_info does: check its three statements
     upd = S.item(R, r'fn update_function_arg_info\(')
     for stmt in ('arg_indices.insert(name.v.clone());', 'default_args.insert(i, default_arg);',
@@ -206,64 +105,88 @@ def build():
             raise S.SliceError("update_function_arg_info no longer contains `%s` (harness constructor mirrors it)" % stmt)
     with open(os.path.join(HERE, 'harness.rs')) as f:
         h = f.read()
-    lib = PRELUDE.replace('/*@GET_ID@*/', get_id)
+    lib = PRELUDE
     lib += "\n// ---- T5: ast.rs Identifier minus loc/id ----\n" + ident2 + "\n"
     lib += "\n// ---- ast.rs FuncCallArg (verbatim) ----\n" + fca + "\n"
     lib += "\n// ---- T1: statics.rs FuncArgDetails minus symbol_table/required_args ----\n" + fad2 + "\n"
     lib += "\n// ---- resolve.rs calculate_named_arg_order (verbatim) ----\n" + fn + "\n"
-    lib += REPLAY_FN + "\n" + h
+    lib += "\n" + h
     return lib, sl
 
 
-def _crate(sc):
+def _build_exe(sc, timeout=400):
     lib, sl = build()
-    sc.file("Cargo.toml", CARGO)
+    sc.file("Cargo.toml", CARGO % os.path.join(S.REPO, "utils"))
     sc.file("src/lib.rs", lib)
     sc.file("src/main.rs", MAIN)
-    return sl
+    env = E.kani_env()
+    env["CARGO_TARGET_DIR"] = os.path.join(sc.path, "target-native")
+    p = subprocess.run(["timeout", str(timeout), "cargo", "build", "--offline", "--quiet"], cwd=sc.path,
+                       capture_output=True, text=True, env=env)
+    if p.returncode != 0:
+        raise E.Undecided("u13: native build of the sliced function failed (drift?):\n" + p.stderr[-3000:])
+    return os.path.join(env["CARGO_TARGET_DIR"], "debug", "u13"), sl
+
+
+def _enumerate(exe, canary=False, timeout=300):
+    q = subprocess.run(["timeout", str(timeout), exe] + (["canary"] if canary else []), capture_output=True, text=True)
+    if q.returncode != 0:
+        raise E.Undecided("u13: enumerator failed rc=%d\n%s" % (q.returncode, (q.stdout + q.stderr)[-2000:]))
+    return json.loads(q.stdout.strip().split("\n")[-1])
 
 
 def run(tier="quick"):
     sc = E.Scratch("u13")
     try:
-        sl = _crate(sc)
-        names = ["u13::" + o[2] for o in OBL]
-        res = kmulti.run(sc.path, names, timeout=900 if tier == "thorough" else 400)
-        obs = []
+        t0 = time.time()
+        exe, sl = _build_exe(sc)
+        t1 = time.time()
+        real = _enumerate(exe)
+        t2 = time.time()
+        canary = _enumerate(exe, canary=True)
+        vac = None
+        if canary["nmismatch"] == 0:
+            vac = "vacuity canary: a specification with wrong defaults is not distinguished from the real function"
+        elif not (real["wellformed"] and real["illformed"] and real["cover_all_named_reordered"] and
+                  real["cover_defaults_fill_two"] and real["cover_more_args_than_params"]):
+            vac = "vacuity guard: a cover class is empty: %s" % {k: v for k, v in real.items() if k.startswith('cover') or k.endswith('formed')}
         sha = S.sha(sl['calculate_named_arg_order'] + sl['IdSet::get_id'])
-        for oid, props, h, text in OBL:
-            r = res["u13::" + h]
-            st = r['status']
-            detail = "\n".join(r['failed'][:6])
-            if st == E.UNDECIDED:
-                detail = r['raw'][-1500:]
-            bad_cov = [c for c in r['cover'] if c[1] != 'SATISFIED']
-            if st == E.DISCHARGED and (not r['cover'] or bad_cov):
-                st, detail = E.UNDECIDED, "vacuity guard: cover not satisfied: %s" % (bad_cov or "no cover reported")
-            obs.append(E.Obligation(oid, props, UNIT, "calculate_named_arg_order", "kani/cbmc", st, detail, r['time_s'],
-                                    R, sha, BOUND, text))
+        obs = []
+        for oid, props, nkey, lkey, text in OBL:
+            n = real[nkey] + (real["nlong"] if nkey == "npanic" else 0)
+            if vac:
+                st, detail = E.UNDECIDED, vac
+            elif n:
+                st = E.FAILED
+                detail = "%d of %d inputs: %s" % (n, real["shapes"] if nkey == "npanic" else real["wellformed"], " | ".join(real[lkey][:5]))
+            else:
+                st, detail = E.DISCHARGED, ""
+            obs.append(E.Obligation(oid, props, UNIT, "calculate_named_arg_order",
+                                    "exhaustive enumeration (native rustc build of the sliced function + real utils crate)",
+                                    st, detail, t2 - t1, R, sha, BOUND % real["shapes"], text))
         info = dict(
             assumptions=[
-                "U13: kani::assume bounds arity (<= 3), call length (<= 4) and name choices; `post` additionally assumes the call shape is well-formed (expected(..).is_some())",
                 "U13: FuncArgDetails is built as update_function_arg_info builds it for distinct parameter names (its three statements are checked syntactically on every run)",
-                "U13/T3: HashMap iteration order = insertion order or its reverse",
+                "U13: HashMap iteration order is the one FxHashMap produces for these keys (the real map is used)",
                 "U13: that calculate_func_call_order rejects ill-formed shapes and that the translator emits arguments in the returned order is not covered",
+                "U13: bounded domain executed exhaustively instead of symbolically (CBMC > 6 GB on one concrete (arity, length) pair)",
             ],
-            trusted_base=["kani 0.68 / cbmc 6.11", "tools/slicer.py",
+            trusted_base=["rustc (native build of the slice)", "tools/slicer.py",
                           "U13/T1 FuncArgDetails minus symbol_table, required_args",
-                          "U13/T2 IdSet<String> association-list stand-in (real get_id body; real IdSet proved in U15)",
-                          "U13/T3 HashMap association-list stand-in", "U13/T4 Expr = opaque id behind the real Rc",
-                          "U13/T5 Identifier minus loc, id (Hash derived)"],
-            checker_cmds=[res["_cmd"]],
-            notes=dict(kani_wall_s=round(res["_wall_s"], 1), bound=BOUND,
-                       retried=[h for h in names if res[h].get('retried')]),
+                          "U13/T4 Expr = opaque id behind the real Rc",
+                          "U13/T5 Identifier minus loc, id (Hash derived)",
+                          "specification units/u13_named_args/harness.rs: expected()"],
+            checker_cmds=["cargo build --offline (scratch crate = sliced function + path dependency on utils) && target/debug/u13 [canary]"],
+            notes=dict(build_s=round(t1 - t0, 1), enumeration_s=round(t2 - t1, 2),
+                       enumeration={k: v for k, v in real.items() if k not in ('panics', 'mismatches')},
+                       canary_mismatches=canary["nmismatch"]),
         )
         return obs, info
     finally:
         sc.cleanup()
 
 
-# ------------------------------------------------------------------ replay
+# ------------------------------------------------------------------ replay on the real CLI
 
 NAMES = ["a", "b", "c", "zz"]
 
@@ -271,9 +194,9 @@ NAMES = ["a", "b", "c", "zz"]
 def _program(shape):
     np_, hd, nc, ch = shape['np'], shape['has_default'], shape['nc'], shape['choice']
     params = ", ".join("%s: int%s" % (NAMES[i], " = %d" % (100 + i) if hd[i] else "") for i in range(np_))
-    body = " ".join("println(%s)" % NAMES[i] for i in range(np_))
+    body = "".join("  println(%s)\n" % NAMES[i] for i in range(np_))
     args = ", ".join(("%s = %d" % (NAMES[ch[j] - 1], 10 + j)) if ch[j] else str(10 + j) for j in range(nc))
-    return "fn f(%s) { %s\n}\nf(%s)\n" % (params, body.replace(" ", "\n  "), args)
+    return "fn f(%s) {\n%s  println(\"end\")\n}\nf(%s)\n" % (params, body, args)
 
 
 def _expected(shape):
@@ -304,53 +227,40 @@ def _expected(shape):
     return out
 
 
-def _run_cli(shape):
-    prog = _program(shape)
-    out, err, rc = abra_cli.run_program(prog)
-    txt = re.sub(r'\x1b\[[0-9;]*m', '', out + err)
-    panicked = "panicked at" in txt
-    return prog, txt, panicked, rc
+def _shapes_from_detail(detail):
+    out = []
+    for m in re.finditer(r'np=(\d) d=(\d)(\d)(\d) nc=(\d) c=(\d)(\d)(\d)(\d)', detail or ""):
+        g = [int(x) for x in m.groups()]
+        out.append(dict(np=g[0], has_default=[bool(g[1]), bool(g[2]), bool(g[3])], nc=g[4], choice=g[5:9]))
+    return out
 
 
 def replay(ob):
-    """Concrete call shape from Kani's playback -> an Abra program `fn f(a: int, b: int = 101, ..) {print params}`
-    `f(10, c = 11, ..)` run on the real CLI.  total: confirmed iff the compiler panics.  post: confirmed iff the
-    program is accepted and prints other values than the specification."""
-    h = dict((o[0], o[2]) for o in OBL).get(ob.id)
-    if not h:
-        return None, dict(note="unknown obligation")
-    sc = E.Scratch("u13r")
-    try:
-        _crate(sc)
-        r = kmulti.run(sc.path, ["u13::" + h], timeout=600, playback=True)["u13::" + h]
-    finally:
-        sc.cleanup()
-    info = dict(kani_status=r['status'], kani_failed=r['failed'][:3])
-    pb = r.get('playback')
-    shapes = []
-    if r['status'] == E.FAILED and pb and len(pb) >= 10:
-        v = [E.le_int(b, signed=False) for b in pb]
-        shape = dict(np=v[0], has_default=[bool(v[1]), bool(v[2]), bool(v[3])], rev=bool(v[4]), nc=v[5], choice=v[6:10])
-        if shape['np'] <= 3 and shape['nc'] <= 4 and all(c <= 4 for c in shape['choice']):
-            info['counterexample'] = shape
-            ob.cex = shape
-            shapes.append(shape)
-    if ob.id.endswith('.total'):
-        # canonical witness of the expected class as a second candidate
-        shapes.append(dict(np=1, has_default=[False, False, False], rev=False, nc=2, choice=[0, 4, 0, 0]))
+    """The enumerator's failing inputs (in ob.detail) become Abra programs
+    `fn f(a: int, b: int = 101, ..) { println(a) .. }  f(10, c = 11, ..)` run on the real CLI.
+    total: confirmed iff the compiler panics.  post: confirmed iff the program is accepted and prints
+    other values than the specification."""
+    shapes = _shapes_from_detail(ob.detail)
+    info = dict(shapes=len(shapes))
+    if not shapes:
+        return None, info
+    ob.cex = shapes[0]
     tried = []
     for shape in shapes:
-        prog, txt, panicked, rc = _run_cli(shape)
+        prog = _program(shape)
+        out, err, rc = abra_cli.run_program(prog)
+        txt = re.sub(r'\x1b\[[0-9;]*m', '', out + err)
+        panicked = "panicked at" in txt
         want = _expected(shape)
-        got = [int(x) for x in txt.split() if re.fullmatch(r'-?\d+', x)] if not panicked else None
-        tried.append(dict(program=prog, output=txt[:400], panicked=panicked, expected=want))
+        tried.append(dict(program=prog, output=txt[:500], panicked=panicked, expected=want))
         if ob.id.endswith('.total'):
             if panicked:
-                info.update(tried=tried, failing_input=dict(program=prog, output=txt[:400]))
+                info.update(tried=tried, failing_input=dict(program=prog, output=txt[:500]))
                 return True, info
         else:
-            if want is not None and (panicked or ("error" not in txt and got != want)):
-                info.update(tried=tried, failing_input=dict(program=prog, output=txt[:400], expected=want))
+            got = [int(x) for x in txt.split() if re.fullmatch(r'-?\d+', x)]
+            if want is not None and (panicked or (rc == 0 and "error" not in txt and got != want)):
+                info.update(tried=tried, failing_input=dict(program=prog, output=txt[:500], expected=want))
                 return True, info
     info['tried'] = tried
-    return (False if tried else None), info
+    return False, info
